@@ -330,7 +330,7 @@ type replayFile struct {
 }
 
 func (r *Rec) saveViolation(enc []byte, msg string) string {
-	dir := filepath.Join(VerifDir(), "out", "replays", r.ID)
+	dir := filepath.Join(envOr("VERIF_REPLAY_DIR", filepath.Join(VerifDir(), "out", "replays")), r.ID)
 	os.MkdirAll(dir, 0o755)
 	path := filepath.Join(dir, fmt.Sprintf("shard%d-%s.json", Shard(), Tier()))
 	r.mu.Lock()
